@@ -86,6 +86,8 @@ func propC12(p *Prog, r *Report) {
 	c12WaitGroup(p, r)
 	c12SetErrorFlow(p, r, "C12.d")
 	c12WriterError(p, r)
+	r.Rule("C12.f", "end of stream only when drained: the pipe's Read produces io.EOF only on paths where its buffer is empty (guards evaluated with a non-empty buffer, closed and not closed)")
+	c12EOFOnlyWhenDrained(p, r, "C12.f")
 }
 
 func c12Waits(p *Prog, r *Report, conds []condInfoT) {
